@@ -122,6 +122,23 @@ func genC12(c *Ctx) *Plan {
 		ml := r.pick(0, 1, 100, 511, 512)
 		p.Ops = append(p.Ops, Op{At: base + r.i64n(dur), Kind: "update", Node: r.intn(n), A: 3000, S: string(r.bytes(ml))})
 	}
+	// UDP burst into a busy receiver: compressible best-effort messages of equal length pile up in
+	// the hand-off queue while the application delegate is slow, so the listener decompresses the
+	// next packets while earlier payloads are still waiting to be delivered
+	if p.Cfg.Compression && r.chance(0.6) {
+		at := base + r.i64n(dur)
+		to := r.intn(n)
+		sz := r.pick(200, 300, p.Cfg.UDPBuf/2)
+		p.Ops = append(p.Ops, Op{At: at - 1_000_000, Kind: "slowdelegate", Node: to, A: int64(30 * time.Millisecond)})
+		gap := int64(r.pick(1, 1000, 100_000))
+		for j := 0; j < r.rangeI(3, 6); j++ {
+			from := (to + 1 + r.intn(n-1)) % n
+			body := append([]byte(fmt.Sprintf("B%d_%d|", 950, j)), bytes.Repeat([]byte{byte('a' + j)}, sz)...)
+			p.Ops = append(p.Ops, Op{At: at + int64(j)*gap, Kind: "send", Node: from, B: int64(to), Buf: body})
+		}
+		p.Ops = append(p.Ops, Op{At: at + 500_000_000, Kind: "slowdelegate", Node: to, A: 0})
+		p.P["udp_burst_busy_receiver"] = 1
+	}
 	p.P["end"] = base + dur + int64(6*time.Second)
 	p.YieldOff = genYieldOff(r)
 	return p
@@ -132,6 +149,9 @@ func execC12(c *Ctx) {
 	cx := startClusterRun(c, newEventMon(), &healthMon{}, &c04mon{})
 	if p.param("rollout", 0) == 1 {
 		c.Reach("encryption_rollout_mode")
+	}
+	if p.param("udp_burst_busy_receiver", 0) == 1 {
+		c.Reach("udp_burst_busy_receiver")
 	}
 	// a stream handler may be descheduled for a moment right after the label stage while other
 	// inbound streams are accepted (far below any protocol timeout)
